@@ -196,6 +196,31 @@ def gotStream [DecidableEq PK] (verify : PK → Sig → Msg → Bool) (parse : M
   | [] => st
   | b :: bs => gotStream verify parse subs (gotBatch verify parse subs st b) bs
 
+/-! ### Late subscription
+
+`subscribe_to(service_name, callback)` may be called at any time.  It adds an observer to the
+service's `ObserverList` and then calls `obs.notify(key_s, ann)` for every stored announcement of
+that service (in dict order) — the memory "for clients who subscribe after startup".  Nothing is
+stored for a service nobody has subscribed to yet, so the first subscriber of a service is told
+nothing; a further subscriber of an already subscribed service triggers one `notify` per stored
+announcement of it (which reaches the earlier observers again).  `delivered` counts `notify` calls.
+The store is not changed. -/
+def subscribeTo [DecidableEq PK] (svc : Nat) (st : State PK) : State PK :=
+  { st with delivered := st.delivered ++
+      (st.store.filter (fun e => e.1.1 == svc)).map (fun e => (e.1.2, e.2)) }
+
+/-- what happens to a client: a call of `got_announcements` or a call of `subscribe_to` -/
+inductive Ev (PK Sig Msg : Type)
+  | batch (ws : List (Wire PK Sig Msg))
+  | subscribe (svc : Nat)
+
+/-- a history of events; the first component is the list of subscribed services -/
+def gotEvents [DecidableEq PK] (verify : PK → Sig → Msg → Bool) (parse : Msg → Option Ann) :
+    List Nat → State PK → List (Ev PK Sig Msg) → List Nat × State PK
+  | subs, st, [] => (subs, st)
+  | subs, st, .batch ws :: rest => gotEvents verify parse subs (gotBatch verify parse subs st ws) rest
+  | subs, st, .subscribe svc :: rest => gotEvents verify parse (subs ++ [svc]) (subscribeTo svc st) rest
+
 /-! ### Key spellings
 
 The wire carries the key as a *string* (`claimed_key_vs`); `ed25519.verifying_key_from_string`
